@@ -289,6 +289,10 @@ MUTATIONS += [
     dict(id="C03-writer-index-entry-despite-failed-write", prop="C03", file=PK, old="        self.be\n            .write_bytes(FileType::Pack, &id, self.cacheable, file)?;\n        index.time = Some(Timestamp::now());", new="        _ = self.be.write_bytes(FileType::Pack, &id, self.cacheable, file);\n        index.time = Some(Timestamp::now());"),
 ]
 
+MUTATIONS += [
+    dict(id="C03-copy-snapshots-before-index", prop="C03", file="crates/core/src/commands/copy.rs", old="    indexer.write().unwrap().finalize()?;\n\n    let p = repo_dest.progress_counter(\"saving snapshots...\");\n    be_dest.save_list(snaps.iter(), p)?;", new="    let p = repo_dest.progress_counter(\"saving snapshots...\");\n    be_dest.save_list(snaps.iter(), p)?;\n    indexer.write().unwrap().finalize()?;"),
+]
+
 HARMLESS = [
     dict(id="H-C05-trees-symlink-continue", prop="C05", file=CK, old="        for node in tree.nodes {\n            match node.node_type {", new="        for node in tree.nodes {\n            if node.node_type == NodeType::Symlink {\n                continue;\n            }\n            match node.node_type {"),
 ]
